@@ -35,6 +35,8 @@ var claimKernels = []gen.ExecKernel{
 	{Family: "offBy1", Body: "defer func() {\nif e := recover(); e != nil {\nr1 = \"panic\"\n}\n}()\nr0 = int(s[len(s)]) + int(bs[len(bs)])", Focus: []string{"s", "bs"}},
 	{Family: "offBy1", Body: "defer func() {\nif e := recover(); e != nil {\nr1 = \"panic\"\n}\n}()\nm := map[int]int{0: 7, 1: 8}\nr0 = m[len(m)]", Focus: []string{"a"}},
 	{Family: "offBy1", Body: "defer func() {\nif e := recover(); e != nil {\nr1 = \"panic\"\n}\n}()\nlen := func(v []int) int { return 0 }\nys := append([]int{5}, xs...)\nr0 = ys[len(ys)]", Focus: []string{"xs"}},
+	{Family: "offBy1", Body: "defer func() {\nif e := recover(); e != nil {\nr1 = \"panic\"\n}\n}()\ntype reg map[int]int\nr := reg{0: 7, 1: 8}\nr[len(r)] = 5\nr0 = r[len(r)] + len(r)\ntype names map[int]string\nnm := names{}\nnm[len(nm)] = s\nr1 = nm[len(nm)]", Focus: []string{"a", "s"}},
+	{Family: "offBy1", Body: "defer func() {\nif e := recover(); e != nil {\nr1 = \"panic\"\n}\n}()\ntype sl []int\ntype arr3 [3]int\nys := sl(xs)\nvar z arr3\nr0 = len(z)\nr0 += ys[len(ys)]", Focus: []string{"xs"}},
 	{Family: "nilValReturn", Body: "n := 0\nnext := func() *pair {\nn++\nif n%2 == 1 {\nreturn nil\n}\nreturn &pair{a: n}\n}\nh := func() *pair {\nif nil == next() {\nreturn next()\n}\nreturn nil\n}\nh2 := func() *pair {\nif next() == nil {\nreturn next()\n}\nreturn nil\n}\nr2 = h() == nil && h2() == nil && p", Focus: []string{"p"}},
 	{Family: "nilValReturn", Body: "ch := make(chan error, 4)\nch <- nil\nch <- fmt.Errorf(\"x\")\nh := func() error {\nif nil == <-ch {\nreturn <-ch\n}\nreturn nil\n}\nvar in *pair\nif p {\nin = &pair{}\n}\ng := func(pp *pair) *pair {\nif nil == pp {\nreturn pp\n}\nif nil != pp {\nreturn pp\n}\nreturn nil\n}\nr2 = h() == nil && g(in) == nil", Focus: []string{"p"}},
 	{Family: "nilValReturn", Body: "h := func(pp *pair) *pair {\nif pp == nil {\nreturn pp\n}\nreturn &pair{}\n}\nvar in *pair\nif p {\nin = &pair{}\n}\nr2 = h(in) == nil", Focus: []string{"p"}},
@@ -173,7 +175,7 @@ func isPure(p *core.Program, e ast.Expr) string {
 	return "pure-operand"
 }
 
-func (c *claim) wrap(p *core.Program, e ast.Expr, pre, post string) {
+func (c *claim) wrap(p *core.Program, e ast.Node, pre, post string) {
 	a := p.Fset.PositionFor(e.Pos(), false).Offset
 	b := p.Fset.PositionFor(e.End(), false).Offset
 	c.edits = append(c.edits, gen.Edit{File: 0, From: a, To: a, Text: pre}, gen.Edit{File: 0, From: b, To: b, Text: post})
@@ -264,7 +266,24 @@ func checkC12(t core.TB, rec *core.Recorder, env *gen.Env, all *core.Set, ec *ex
 				}
 				ty := types.TypeString(p.Info.TypeOf(ie), func(*types.Package) string { return "" })
 				c.what, c.class = "index expression always panics", containerClass(p, ie)+"/"+lenClass(p, ie.Index)
-				c.wrap(p, ie, "mustPanic(func() interface{} { return ", " }).("+ty+")")
+				// an assignment target cannot be wrapped as a value: the whole store must panic
+				var store *ast.AssignStmt
+				if at, _ := nodesAt(f, pos); true {
+					for _, n := range at {
+						if as, ok := n.(*ast.AssignStmt); ok {
+							for _, l := range as.Lhs {
+								if l == ast.Expr(ie) {
+									store = as
+								}
+							}
+						}
+					}
+				}
+				if store != nil {
+					c.wrap(p, store, "mustPanic(func() interface{} { ", "; return nil })")
+				} else {
+					c.wrap(p, ie, "mustPanic(func() interface{} { return ", " }).("+ty+")")
+				}
 			case "nilValReturn":
 				at, _ := nodesAt(f, pos)
 				var ret *ast.ReturnStmt
